@@ -133,7 +133,7 @@ def check_cases(cases: list[dict], rep: Report, known: dict) -> None:
                     differs = True
                     want = (far[0], (far[2] if far[0] == "ok" else far[1]) + "  [answer of a process that had done nothing else]")
             if differs:
-                if (w1.count or w2.count) and model_exhausts_budget(c["pool"] + hist.extra_texts, op):
+                if (w1.count or w2.count) and model_exhausts_budget(c["pool"] + hist.extra_texts, op, src):
                     rep.known("K4", "result of a simplification that exhausts the 1000-step budget depends on flags left by earlier simplifications",
                               {"ops": [o["op"] for o in done], "failing_op": k, "pool_sizes": [len(t.split()) for t in c["pool"]]})
                 else:
@@ -155,12 +155,14 @@ def check_cases(cases: list[dict], rep: Report, known: dict) -> None:
 PRISTINE_ORIGINS = ("int-float-twins", "twins", "sharing")
 
 
-def model_exhausts_budget(pool_texts: list[str], op: dict) -> bool:
+def model_exhausts_budget(pool_texts: list[str], op: dict, src=None) -> bool:
     """K4 is about simplifications that need more than the library's 1000 steps. The warning alone does
     not establish that (a smaller budget in the implementation would log it too): the model, whose budget
     is the documented 1000, must run out of steps on the same never-used input as well."""
     from ..core import Batch, parse_answer
     i = op["i"] if op["i"] < len(pool_texts) else 0
+    if src is not None and op["op"] in ("pobj_at", "pobj_expr") and isinstance(src[0], int):
+        i = src[0]          # a persistent object differentiates the pool member it was built on, not the one the operation names
     e = H.build_pool(pool_texts)[i]
     etxt = wire.expr(e)
     names = sorted(e._variable_names) or ["x"]
